@@ -82,3 +82,81 @@ Example C04_coverage_needed :
   let sep := fun _ _ : nat => (1 # 2)%Q in
   match_ok 1 1 sep 1%Q 0 (spherematch_model 0 nRa bs 1 cell_of sep 1%Q []) = false.
 Proof. exact coverage_needed_example. Qed.
+
+(* ================================================================== towards `coverage` *)
+From Coq Require Import Reals Qround.
+From PV Require Import C04.Geometry C04.Bounds.
+Close Scope R_scope. Close Scope Q_scope. Close Scope Z_scope. Open Scope nat_scope.
+
+(* ---- (1) spherical geometry over the classical reals (axioms: see Print Assumptions) ----
+   dotp dp ap dq aq = p.q for the unit vectors with (declination, right ascension) (dp, ap), (dq, aq);
+   "separation <= m"  is  cos m <= p.q,  equivalently  hav <= sin^2(m/2)  as gcirc computes it (hav_le_iff). *)
+Theorem C04_dec_margin_covers : forall dp ap dq aq m : R,
+  (- (PI / 2) <= dp <= PI / 2)%R -> (- (PI / 2) <= dq <= PI / 2)%R -> (0 <= m <= PI)%R ->
+  (cos m <= dotp dp ap dq aq)%R ->
+  (Rabs (dp - dq) <= m)%R.
+Proof. exact dec_margin_covers. Qed.
+Print Assumptions C04_dec_margin_covers.
+
+(* the tangent-meridian bound = raMargin of the repaired getbounds *)
+Theorem C04_ra_margin_covers : forall dp ap dq aq m : R,
+  (- (PI / 2) <= dp <= PI / 2)%R -> (- (PI / 2) < dq < PI / 2)%R -> (0 <= m <= PI / 2)%R ->
+  (sin m < cos dq)%R ->
+  (cos m <= dotp dp ap dq aq)%R ->
+  (- PI <= ap - aq <= PI)%R ->
+  (Rabs (ap - aq) <= asin (sin m / cos dq))%R.
+Proof. exact ra_margin_covers. Qed.
+Print Assumptions C04_ra_margin_covers.
+
+Theorem C04_hav_le_iff : forall dp ap dq aq m : R,
+  (hav dp ap dq aq <= (sin (m / 2))²)%R <-> (cos m <= dotp dp ap dq aq)%R.
+Proof. exact hav_le_iff. Qed.
+Print Assumptions C04_hav_le_iff.
+
+(* ---- (2) the discrete half, exact rationals, bounds as data ---- *)
+(* the slice walk of getbounds visits every declination slice holding a declination within m of dec *)
+Theorem C04_dec_coverage : forall (B : list Q) (nDec : nat) (dec m : Q) (c0 s : nat) (d' : Q),
+  mono B nDec -> c0 < nDec -> s < nDec ->
+  (qbnd B s <= d' <= qbnd B (S s))%Q -> (dec - d' < m)%Q -> (d' - dec < m)%Q ->
+  dec_down B dec m c0 <= s <= dec_up B dec m nDec nDec c0.
+Proof. exact dec_coverage. Qed.
+Print Assumptions C04_dec_coverage.
+
+(* the cell walk inside a slice, without wrap, and through the single wrap cell at either end *)
+Theorem C04_ra_coverage : forall (B : list Q) (n : nat) (ra mg : Q) (c0 s : nat) (ra' : Q),
+  mono B n -> c0 < n -> s < n ->
+  (qbnd B s <= ra' <= qbnd B (S s))%Q -> (ra - ra' < mg)%Q -> (ra' - ra < mg)%Q ->
+  (ra_down B ra mg c0 <= Z.of_nat s <= ra_up B ra mg n n c0)%Z.
+Proof. exact ra_coverage. Qed.
+Print Assumptions C04_ra_coverage.
+
+Theorem C04_ra_coverage_seam : forall (B : list Q) (n : nat) (ra mg : Q) (c0 : nat) (ra' : Q),
+  mono B n -> c0 < n ->
+  ((qbnd B c0 <= ra <= qbnd B n)%Q -> (ra' + (qbnd B n - qbnd B 0) - ra < mg)%Q -> (qbnd B 0 <= ra')%Q ->
+     ra_up B ra mg n n c0 = Z.of_nat n) /\
+  ((qbnd B 0 <= ra)%Q -> (ra + (qbnd B n - qbnd B 0) - ra' < mg)%Q -> (ra' <= qbnd B n)%Q ->
+     ra_down B ra mg c0 = (-1)%Z).
+Proof.
+  exact (fun B n ra mg c0 ra' Hm Hc =>
+    conj (fun H1 H2 H3 => ra_coverage_seam_up B n ra mg c0 ra' Hm Hc H1 H2 H3)
+         (fun H1 H2 H3 => ra_coverage_seam_down B n ra mg c0 ra' Hm Hc H1 H2 H3)).
+Qed.
+Print Assumptions C04_ra_coverage_seam.
+
+(* get_in_bounds: floor binning returns a valid index, namely the cell that contains the point; and the bounds
+   built from list 1 (3 + floor(range/w) cells, centred, declination clamped to +-90) contain every list-1 point *)
+Theorem C04_get_in_bounds : forall (x lo hi : Q) (n : nat), (lo < hi)%Q -> 0 < n -> (lo <= x < hi)%Q ->
+  (0 <= cell_index x lo hi n < Z.of_nat n)%Z /\
+  (ebnd lo hi n (Z.to_nat (cell_index x lo hi n)) <= x < ebnd lo hi n (S (Z.to_nat (cell_index x lo hi n))))%Q.
+Proof. exact (fun x lo hi n H1 H2 H3 => conj (cell_index_valid x lo hi n H1 H2 H3) (cell_index_slice x lo hi n H1 H2 H3)). Qed.
+Print Assumptions C04_get_in_bounds.
+
+Theorem C04_bounds_contain_list1 : forall a b w x : Q, (0 < w)%Q -> (a <= x <= b)%Q ->
+  (pad_lo a b w <= x < pad_hi a b w)%Q /\ 3 <= pad_n a b w /\
+  ((-(90) < x < 90)%Q -> (dec_lo a b w <= x < dec_hi a b w)%Q).
+Proof.
+  exact (fun a b w x Hw Hx => conj (ra_pad_covers a b w x Hw Hx)
+          (conj (proj2 (proj2 (pad_covers a b w Hw (Qle_trans _ _ _ (proj1 Hx) (proj2 Hx)))))
+                (fun Hr => dec_pad_covers a b w x Hw Hx Hr))).
+Qed.
+Print Assumptions C04_bounds_contain_list1.
